@@ -76,7 +76,8 @@ def _raw(kind, target):
 def csv_case(draw, tier):
     enc = draw(st.sampled_from(ENCODINGS))
     alpha = st.sampled_from(BASE + EXTRA[enc])
-    quoting = draw(st.sampled_from(["minimal", "all", "nonnumeric"]))
+    # "default": the quoting argument is omitted on writing AND reading (the module default, minimal quoting)
+    quoting = draw(st.sampled_from(["minimal", "all", "nonnumeric", "default", "default"]))
     text = st.text(alpha, max_size=4)
     cell = text if quoting == "nonnumeric" else st.one_of(text, text, st.none(), st.integers(-5, 5), st.floats(allow_nan=False, allow_infinity=False, width=16), st.booleans())
     # field names are usually text, sometimes None (an unnamed column) or an int: rendered like any other cell
@@ -111,7 +112,8 @@ def _is_bom_compressed(case):
 
 def check_csv(case, ctx):
     enc, kind = case["encoding"], case["kind"]
-    kw = {"quoting": {"minimal": csv.QUOTE_MINIMAL, "all": csv.QUOTE_ALL, "nonnumeric": csv.QUOTE_NONNUMERIC}[case["quoting"]]}
+    kw = {} if case["quoting"] == "default" else {
+        "quoting": {"minimal": csv.QUOTE_MINIMAL, "all": csv.QUOTE_ALL, "nonnumeric": csv.QUOTE_NONNUMERIC}[case["quoting"]]}
     for k in ("delimiter", "quotechar"):
         if k in case:
             kw[k] = case[k]
